@@ -76,7 +76,7 @@ Spec == Init /\ [][FALSE]_sc
 
 RejectIffInadmissible == (Check(sc) = "ok") <=> Admissible(sc)
 \* the admissible set of a width is exactly -2^(w-1) .. 2^w - 1: 2^w + 2^(w-1) values
-WidthRange == sc.kind = "width" => Cardinality({v \in (-(Pow2(sc.w)) - 2)..(Pow2(sc.w) + 2) : FitsField(v, sc.w)}) = Pow2(sc.w) + Pow2(sc.w - 1)
+WidthRange == (sc.kind = "width" /\ sc.w <= 12) => Cardinality({v \in (-(Pow2(sc.w)) - 2)..(Pow2(sc.w) + 2) : FitsField(v, sc.w)}) = Pow2(sc.w) + Pow2(sc.w - 1)
 FieldFits == (Admissible(sc) /\ sc.kind # "enum") => FitsField(FieldValue(sc), sc.w)
 
 Emit == PrintT(<<"EMIT", ToJson([s |-> sc, ok |-> Admissible(sc), f |-> IF Admissible(sc) THEN FieldValue(sc) ELSE None])>>)
